@@ -35,8 +35,16 @@ Fixpoint enc_msg (c : cfg) (ms : list rmodel) (n : nat) (l : list Z) (a : ans) (
             end
   end.
 
-Fixpoint seek_loop (fuel : nat) (c : cfg) (vec : bool) (ms : list rmodel) (snaps : list (N * N))
-  (l : list Z) (d : sdec) : list Z :=
+(* [total] = Some n for the reversed decoder over n words: externally visible positions are
+   n - (forward position) *)
+Definition remap (total : option N) (p : N) : option N :=
+  match total with
+  | None => Some p
+  | Some n => if N.leb p n then Some (n - p)%N else None
+  end.
+
+Fixpoint seek_loop (fuel : nat) (c : cfg) (vec : bool) (total : option N) (ms : list rmodel)
+  (snaps : list (N * N)) (l : list Z) (d : sdec) : list Z :=
   match fuel with
   | O => []
   | S fuel' =>
@@ -44,19 +52,26 @@ Fixpoint seek_loop (fuel : nat) (c : cfg) (vec : bool) (ms : list rmodel) (snaps
     | [] => []
     | 1 :: i :: r =>
         match sd_seek vec d (nth (Z.to_nat i) snaps (0%N, 0%N)) with
-        | Some d' => 0 :: seek_loop fuel' c vec ms snaps r d'
-        | None => ERR_SEEK :: seek_loop fuel' c vec ms snaps r d
+        | Some d' => 0 :: seek_loop fuel' c vec total ms snaps r d'
+        | None => ERR_SEEK :: seek_loop fuel' c vec total ms snaps r d
         end
     | 2 :: m :: r =>
         let '(s, d') := sd_decode c vec (get_model ms m) d in
-        s :: seek_loop fuel' c vec ms snaps r d'
+        s :: seek_loop fuel' c vec total ms snaps r d'
     | 3 :: p :: s :: r =>
-        match sd_seek vec d (zN p, zN s) with
-        | Some d' => 0 :: seek_loop fuel' c vec ms snaps r d'
-        | None => ERR_SEEK :: seek_loop fuel' c vec ms snaps r d
+        match remap total (zN p) with
+        | Some fp =>
+            match sd_seek vec d (fp, zN s) with
+            | Some d' => 0 :: seek_loop fuel' c vec total ms snaps r d'
+            | None => ERR_SEEK :: seek_loop fuel' c vec total ms snaps r d
+            end
+        | None => ERR_SEEK :: seek_loop fuel' c vec total ms snaps r d
         end
-    | 4 :: r => let '(p, s) := ans_pos (sd_a d) in nZ p :: nZ s :: seek_loop fuel' c vec ms snaps r d
-    | 5 :: r => (if ans_is_empty (sd_a d) then 1 else 0) :: seek_loop fuel' c vec ms snaps r d
+    | 4 :: r =>
+        let '(p, s) := ans_pos (sd_a d) in
+        let p' := match total with None => p | Some n => (n - p)%N end in
+        nZ p' :: nZ s :: seek_loop fuel' c vec total ms snaps r d
+    | 5 :: r => (if ans_is_empty (sd_a d) then 1 else 0) :: seek_loop fuel' c vec total ms snaps r d
     | _ => [PANIC]
     end
   end.
@@ -72,7 +87,12 @@ Definition run_ansseek (inp : list Z) : list Z :=
           match r3 with
           | kind :: ops =>
               flat_map (fun '(p, s) => [nZ p; nZ s]) snaps ++
-              seek_loop (length ops) c (Z.eqb kind 2) ms snaps ops {| sd_a := a; sd_beyond := [] |}
+              if Z.eqb kind 3 then
+                let chunks := state_chunks c (st a) in
+                seek_loop (length ops) c false (Some (N.of_nat (length (bulk a) + length chunks))) ms snaps ops
+                  {| sd_a := a; sd_beyond := chunks |}
+              else
+                seek_loop (length ops) c (Z.eqb kind 2) None ms snaps ops {| sd_a := a; sd_beyond := [] |}
           | [] => [PANIC]
           end
       | [] => [PANIC]
